@@ -208,7 +208,11 @@ impl Pager {
         if !existed || file.metadata()?.len() == 0 {
             let meta = Meta::new();
             let bitmap = Bitmap::new();
+            #[cfg(nervusdb_verif)]
+            crate::verif_hooks::io_before("set_len", "pager.open.set_len", Some(&file), None)?;
             file.set_len((PAGE_SIZE * 2) as u64)?;
+            #[cfg(nervusdb_verif)]
+            crate::verif_hooks::io_after("set_len", "pager.open.set_len", Some(&file), None);
 
             let mut pager = Self {
                 path,
@@ -281,7 +285,11 @@ impl Pager {
             .truncate(false)
             .open(target_path)?;
 
+        #[cfg(nervusdb_verif)]
+        crate::verif_hooks::io_before("set_len", "pager.vacuum.set_len", Some(&out), None)?;
         out.set_len(new_next_page_id.saturating_mul(PAGE_SIZE as u64))?;
+        #[cfg(nervusdb_verif)]
+        crate::verif_hooks::io_after("set_len", "pager.vacuum.set_len", Some(&out), None);
 
         let meta_page = meta.encode_page();
         write_page_raw(&out, META_PAGE_ID, &meta_page)?;
@@ -295,7 +303,11 @@ impl Pager {
             write_page_raw(&out, *p, &page)?;
         }
 
+        #[cfg(nervusdb_verif)]
+        crate::verif_hooks::io_before("sync", "pager.vacuum.sync", Some(&out), None)?;
         out.sync_data()?;
+        #[cfg(nervusdb_verif)]
+        crate::verif_hooks::io_after("sync", "pager.vacuum.sync", Some(&out), None);
 
         Ok(VacuumCopyStats {
             old_next_page_id,
@@ -427,7 +439,11 @@ impl Pager {
     }
 
     pub fn sync(&mut self) -> Result<()> {
+        #[cfg(nervusdb_verif)]
+        crate::verif_hooks::io_before("sync", "pager.sync", Some(&self.file), None)?;
         self.file.sync_data()?;
+        #[cfg(nervusdb_verif)]
+        crate::verif_hooks::io_after("sync", "pager.sync", Some(&self.file), None);
         Ok(())
     }
 
@@ -445,7 +461,11 @@ impl Pager {
         let required_bytes = (page_id.as_u64() + 1) * PAGE_SIZE as u64;
         let current_len = self.file.metadata()?.len();
         if current_len < required_bytes {
+            #[cfg(nervusdb_verif)]
+            crate::verif_hooks::io_before("set_len", "pager.grow", Some(&self.file), None)?;
             self.file.set_len(required_bytes)?;
+            #[cfg(nervusdb_verif)]
+            crate::verif_hooks::io_after("set_len", "pager.grow", Some(&self.file), None);
         }
 
         self.flush_meta_and_bitmap()
@@ -464,7 +484,11 @@ impl Pager {
         write_page_raw(&self.file, BITMAP_PAGE_ID, &self.bitmap.data)?;
         // Ensure meta + bitmap durability. WAL replay can recover data pages, but
         // durable metadata reduces recovery work and avoids pathological re-scan.
+        #[cfg(nervusdb_verif)]
+        crate::verif_hooks::io_before("sync", "pager.meta.sync", Some(&self.file), None)?;
         self.file.sync_data()?;
+        #[cfg(nervusdb_verif)]
+        crate::verif_hooks::io_after("sync", "pager.meta.sync", Some(&self.file), None);
         Ok(())
     }
 }
@@ -477,7 +501,13 @@ fn read_page_raw(file: &File, page_id: PageId, buf: &mut [u8; PAGE_SIZE]) -> Res
 
 fn write_page_raw(file: &File, page_id: PageId, buf: &[u8; PAGE_SIZE]) -> Result<()> {
     let offset = page_id.as_u64() * PAGE_SIZE as u64;
+    #[cfg(nervusdb_verif)]
+    crate::verif_hooks::io_before("write", "pager.write_page", Some(file), None)?;
     write_all_at(file, offset, buf).map_err(Error::Io)?;
+    #[cfg(nervusdb_verif)]
+    crate::verif_hooks::io_after("write", "pager.write_page", Some(file), None);
+    #[cfg(nervusdb_verif)]
+    crate::verif_hooks::page("write", page_id.as_u64());
     Ok(())
 }
 
